@@ -16,6 +16,15 @@ func pbServCtrlSerialize(ctrl *MsgServerCtrl) *pbx.ServerMsg_Ctrl {
 	if ctrl.Params != nil {
 		if in, ok := ctrl.Params.(map[string]any); ok {
 			params = interfaceMapToByteMap(in)
+		} else if raw, err := json.Marshal(ctrl.Params); err == nil {
+			// Params of other map types, e.g. map[string]string (303 redirect), map[string]int ({del} reply).
+			var in map[string]json.RawMessage
+			if json.Unmarshal(raw, &in) == nil {
+				params = make(map[string][]byte, len(in))
+				for key, val := range in {
+					params[key] = val
+				}
+			}
 		}
 	}
 
